@@ -101,6 +101,10 @@ func linOf(v ssa.Value) linExpr {
 		}
 	case *ssa.Convert:
 		return linOf(x.X)
+	case *ssa.ChangeType:
+		if isIntegerType(x.Type()) && isIntegerType(x.X.Type()) {
+			return linOf(x.X)
+		}
 	}
 	return linExpr{base: canon(v), ok: true}
 }
@@ -426,6 +430,67 @@ func c07Index(c *Ctx, r *Report, p *Prov, f *ssa.Function, in ssa.Instruction, X
 	if li.ok && impliesLess(li, X, 0, lf) {
 		r.OK("C07-R1", construct, c.InstrPos(in), "D2: bound implied by dominating len comparisons")
 		return
+	}
+	// D2 for arrays: the length is a constant of the type; idx < N and idx >= 0 from dominating comparisons with constants
+	{
+		var arr *types.Array
+		switch t := X.Type().Underlying().(type) {
+		case *types.Array:
+			arr = t
+		case *types.Pointer:
+			arr, _ = t.Elem().Underlying().(*types.Array)
+		}
+		if arr != nil && li.ok && li.base != nil {
+			upper, lower := false, false
+			if b, ok := li.base.Type().Underlying().(*types.Basic); ok && b.Info()&types.IsUnsigned != 0 && li.off >= 0 {
+				lower = true
+			}
+			for _, f := range lf {
+				// base + L.off < R.off
+				if f.R.base == nil && f.L.base == li.base && f.L.isLen == li.isLen && f.R.off-f.L.off+li.off <= arr.Len() {
+					upper = true
+				}
+				// L.off < base + R.off
+				if f.L.base == nil && f.R.base == li.base && f.R.isLen == li.isLen && f.L.off-f.R.off+1+li.off >= 0 {
+					lower = true
+				}
+			}
+			if li.isLen && li.off >= 0 {
+				lower = true
+			}
+			if upper && lower {
+				r.OK("C07-R1", construct, c.InstrPos(in), fmt.Sprintf("D2: index into an array of %d elements, bounds implied by dominating comparisons with constants", arr.Len()))
+				return
+			}
+		}
+	}
+	// D2 trim idiom: idx = len(x) - len(Trim*(x, ...)) lies in [0, len(x)] (the trimmed value is a
+	// sub-slice of x); with idx != len(x) established it is a valid index
+	if sub, ok := idx.(*ssa.BinOp); ok && sub.Op == token.SUB {
+		l1, l2 := linOf(sub.X), linOf(sub.Y)
+		if l1.ok && l1.isLen && l1.off == 0 && l1.base == canon(X) && l2.ok && l2.isLen && l2.off == 0 {
+			if tc, ok := l2.base.(*ssa.Call); ok && len(tc.Call.Args) > 0 && canon(tc.Call.Args[0]) == canon(X) {
+				k := calleeKey(&tc.Call)
+				if (strings.HasPrefix(k, "bytes.Trim") || strings.HasPrefix(k, "strings.Trim")) && !strings.HasSuffix(k, "Func") {
+					for _, f := range getFacts() {
+						b, ok := f.Cond.(*ssa.BinOp)
+						if !ok || !((b.Op == token.EQL && !f.Pol) || (b.Op == token.NEQ && f.Pol)) {
+							continue
+						}
+						other := b.Y
+						if b.Y == idx {
+							other = b.X
+						} else if b.X != idx {
+							continue
+						}
+						if lo := linOf(other); lo.ok && lo.isLen && lo.off == 0 && lo.base == canon(X) {
+							r.OK("C07-R1", construct, c.InstrPos(in), "D2: the index is the length of the trimmed prefix (0 <= idx <= len(x)) and idx != len(x) is established")
+							return
+						}
+					}
+				}
+			}
+		}
 	}
 	// D4: x[len(x)-1] on a parameter that is non-empty at every call site
 	if li.ok && li.isLen && li.base == canon(X) && li.off == -1 {
